@@ -48,6 +48,33 @@ CLAIMED.update({
     ),
 })
 
+CLAIMED.update({
+    "C02": (
+        "finite-automaton abstraction of the Union member-trial loop + selection expression; dominance (validate before every parse return); mutation summary of adapt_typehints(val) (static, ast)",
+        "Decides the two mechanisms that make acceptance order-dependent: (a) the selection after the Union loop never denotes a failed member's exception when some member accepted (all words of the loop language up to length 4 over {V,O,E}); (b) a member trial cannot modify the candidate; and (c) every configuration returned by a parse method passed validate. Not decided: conformance of every accepted value to every type hint.",
+        "Trusted: the loop language is read from the CFG of the loop body (one append per iteration); selection forms understood: vals[-1], vals[0], next(v for v in [reversed](vals) if not isinstance(v, Exception)), list-comp forms; others are ANALYSIS-ERROR.",
+        "DESIGN.md section 3 / C02",
+    ),
+    "C12": (
+        "guard-symmetry (control-dependence atoms) between key introduction and removal in auto_cli; exhaustive simple-path enumeration of _run_component / auto_cli (static, ast CFG)",
+        "Decides what happens to the parsed namespace between parse_args and the call: keys popped are exactly those auto_cli introduced (under the same component predicates), exactly one component call (at most one constructor call) per path, the callee's value is returned, and the namespace passed is instantiate_classes(parse_args(args)). Not decided: the signature-to-argument derivation (_add_signature_parameter).",
+        "Trusted: argparse raises on conflicting option strings (so an unconditional --config fails loudly for a same-named parameter); the pairing table removal<->introduction in rules_C12.py.",
+        "DESIGN.md section 3 / C12",
+    ),
+    "C14": (
+        "dominance / guard / identity checks of the Subclass, Callable and Type arms of adapt_typehints and of adapt_class_type; path enumeration of the instantiating branch (static, ast CFG)",
+        "Decides order and identity obligations of the parser-per-class construction: the subclass test against the declared type dominates acceptance (incl. the not_subclass flag protocol), class_path is normalised from the checked class, parser and instantiation use the same class, nested objects are built first, every instantiating path constructs exactly once, init_args pass the class's own parser. Not decided: that every accepted spec instantiates without TypeError for all class families; short forms.",
+        "Trusted: NoReturn helpers are recognised by their own CFG (no normal exit).",
+        "DESIGN.md section 3 / C14",
+    ),
+    "C19": (
+        "exception-discipline and sibling cross-check of Path.__init__ flag predicates; lexical scoping check of config consumers under change_to_path_dir; restore-on-all-paths for os.chdir (static, ast CFG)",
+        "Decides internal consistency of the mode language (every os.stat under a positive existence test; raises are PathError; r/R w/W x/X d/D f/F predicates are exact negations; every alphabet letter tested; contradictory modes rejected) and the scoping of directory changes (every consumer of a loaded config runs inside change_to_path_dir of that path; os.chdir owned by two functions and restored in finally on every path). Not decided: agreement with the file system for all paths.",
+        "Trusted: os.access/os.path.isfile/isdir do not raise for missing paths, os.stat does; ContextVar.reset(token) does not raise.",
+        "DESIGN.md section 3 / C19",
+    ),
+})
+
 NOT_APPLICABLE = {
     "C07": "relational equality of the behaviour of four declaration styles implemented in four modules; no clause is visible in the shape of any one code path, and the only structural candidate (prefixing consistency in _move_parser_actions) is a lint whose violation need not change behaviour (DESIGN.md section 3 / C07)",
     "C13": "soundness of the library's own static parameter resolver over all user programs; decided per program only against the interpreter (an execution oracle); the single wiring clause is too thin to count as deciding anything (DESIGN.md section 3 / C13)",
